@@ -8,21 +8,29 @@
 (*   EscMode = "markupsafe" is what the property needs, "none" is what a template named *.j2 gets.            *)
 (*   An attribute context  <p title="{{doc}}">  is modelled too (not used by the built-in templates) so that   *)
 (*   the attribute clause of P is exercised by the model.                                                     *)
-(* Part B (links): build_namespace_tree + Namespace.j2: one index.html per namespace listing every type of its *)
-(*   subtree (ids = tag ids), nested composites rendered recursively with a hyperlink  url_from_type .        *)
+(* Part B (links): build_namespace_tree + Namespace.j2: one namespace page per namespace listing every type of *)
+(*   its subtree (ids = tag ids), nested composites rendered recursively with a hyperlink  url_from_type .     *)
+(*   The NAME of the namespace page is a parameter of the run:  IndexPage(cfg) = <namespace file stem><extension> *)
+(*   (Namespace.__init__: output_stem.with_suffix(extension)); "index.html" by default, changed by              *)
+(*   --namespace-output-stem / --output-extension (the extension also names the per-type pages).                *)
 (*   LinkStyle = "code":  "../<root>/#<tag id of the referenced type>"  (filter_url_from_type);                *)
 (*   LinkStyle = "fixed": one "../" per namespace level of the page, request/response types link to the        *)
-(*   anchor of their service.  Stages: BuildTree, EmitLinks, ResolveAll.                                      *)
+(*   anchor of their service; still the DIRECTORY url of the root namespace  ("../<root>/#id");                *)
+(*   LinkStyle = "page":  as "fixed" but the url names the namespace page  ("../<root>/<IndexPage>#id").       *)
+(*   Stages: BuildTree, EmitLinks, ResolveAll.  P resolves a directory url to index.html only, so "fixed"       *)
+(*   refines P in the default configuration only and "page" in every configuration.                           *)
 (* TLC checks I => P exhaustively for all payloads of <= MaxTok special tokens x both contexts and all         *)
 (* type-graph shapes; the variants the unchanged tree implements are refuted (negative controls).             *)
 EXTENDS Naturals, Sequences, FiniteSets, TLC, Json
 
 CONSTANTS EscMode,      \* "none" | "markupsafe"
-          LinkStyle,    \* "code" | "fixed" | "samepage" | "sameprefix"
+          LinkStyle,    \* "code" | "fixed" | "page" | "samepage" | "sameprefix"
           MaxTok,       \* payloads are sequences of 0..MaxTok special tokens
           Part,         \* "text" | "links" | "both"
           Chains,       \* BOOLEAN: shapes with a third type (nested rendering inside nested rendering)
-          ListStyle     \* "versioned": every type (name AND version) has its entry | "byname": one entry per unversioned name
+          ListStyle,    \* "versioned": every type (name AND version) has its entry | "byname": one entry per unversioned name
+          Configs,      \* run configurations under which EVERY type-graph shape is generated (subset of CfgNames)
+          SampleConfigs \* run configurations under which one shape per (referrer namespace, target namespace) is generated
 
 P == INSTANCE HtmlDoc WITH MaxLen <- 0, st <- 0, toks <- 0, seen <- 0
 
@@ -213,11 +221,37 @@ SKinds == {"struct", "union", "delimited", "service_req", "service_resp"}
 DKinds == {"struct", "union", "delimited", "deprecated"}
 IsService(k) == k \in {"service_req", "service_resp"}
 
-LinkStims == {[kind |-> "links", src |-> s, dst |-> d, how |-> h, skind |-> sk, dkind |-> dk, chain |-> c] :
+(* ---- the configuration of a run: namespace file stem and output extension ---- *)
+STEM_INDEX == <<105, 110, 100, 101, 120>>      STEM_PAGE == <<112, 97, 103, 101>>          \* index   page
+EXT_HTML   == <<46, 104, 116, 109, 108>>       EXT_HTM   == <<46, 104, 116, 109>>          \* .html   .htm
+CfgNames == {"default", "stem", "ext", "both"}
+CfgSeq   == <<"default", "stem", "ext", "both">>
+StemOf(c) == IF c \in {"stem", "both"} THEN STEM_PAGE ELSE STEM_INDEX
+ExtOf(c)  == IF c \in {"ext", "both"} THEN EXT_HTM ELSE EXT_HTML
+IndexPage(c) == StemOf(c) \o ExtOf(c)
+ASSUME IndexPage("default") = P!N_index_html
+ASSUME Configs \subseteq CfgNames /\ SampleConfigs \subseteq CfgNames
+
+Shape(s, d, h, sk, dk, c, cfg) == [kind |-> "links", src |-> s, dst |-> d, how |-> h, skind |-> sk, dkind |-> dk, chain |-> c, cfg |-> cfg]
+(* the sample: per configuration one shape for every ordered pair of namespaces, the kinds rotating with the pair *)
+NsSeq    == << <<R1>>, <<R1, NS_S>>, <<R1, NS_S, NS_U>>, <<R2>>, <<R1X>>, <<R1, NS_SX>> >>
+HowSeq   == <<"plain", "farr", "varr">>
+SKindSeq == <<"struct", "union", "delimited", "service_req", "service_resp">>
+DKindSeq == <<"struct", "union", "delimited", "deprecated">>
+Idx(seq, x) == CHOOSE i \in 1..Len(seq) : seq[i] = x
+ASSUME {NsSeq[i] : i \in 1..Len(NsSeq)} = Namespaces /\ {HowSeq[i] : i \in 1..3} = Hows
+ASSUME {SKindSeq[i] : i \in 1..5} = SKinds /\ {DKindSeq[i] : i \in 1..4} = DKinds
+SampleOf(cfg) ==
+    LET ci == Idx(CfgSeq, cfg)
+    IN {Shape(NsSeq[a], NsSeq[b], HowSeq[((q + ci) % 3) + 1], SKindSeq[((q + (2 * ci)) % 5) + 1], DKindSeq[((q + (3 * ci)) % 4) + 1], FALSE, cfg)
+          : <<a, b, q>> \in {<<a, b, ((a - 1) * Len(NsSeq)) + (b - 1)>> : a \in 1..Len(NsSeq), b \in 1..Len(NsSeq)}}
+
+AllOf(cfg) == {Shape(s, d, h, sk, dk, c, cfg) :
                 s \in Namespaces, d \in Namespaces, h \in Hows, sk \in SKinds, dk \in DKinds,
                 c \in (IF Chains THEN BOOLEAN ELSE {FALSE})}
-             \ {[kind |-> "links", src |-> s, dst |-> d, how |-> h, skind |-> sk, dkind |-> dk, chain |-> TRUE] :
+             \ {Shape(s, d, h, sk, dk, TRUE, cfg) :
                 s \in Namespaces, d \in Namespaces, h \in Hows, sk \in {"service_req", "service_resp"}, dk \in DKinds}
+LinkStims == UNION {AllOf(cfg) : cfg \in Configs} \cup UNION {SampleOf(cfg) : cfg \in SampleConfigs \ Configs}
 
 RECURSIVE Join(_, _, _)
 Join(segs, sep, i) == IF i > Len(segs) THEN <<>> ELSE (IF i > 1 THEN <<sep>> ELSE <<>>) \o segs[i] \o Join(segs, sep, i + 1)
@@ -242,22 +276,25 @@ VerLE(a, b) == a[1] < b[1] \/ (a[1] = b[1] /\ a[2] <= b[2])
 Listed(sh) == IF ListStyle = "versioned" THEN TypesOf(sh)
               ELSE {t \in TypesOf(sh) : \A u \in TypesOf(sh) : (u.ns = t.ns /\ u.name = t.name) => VerLE(u.ver, t.ver)}
 
-(* build_namespace_tree: every prefix of a type's namespace is a namespace with its own index.html            *)
+(* build_namespace_tree: every prefix of a type's namespace is a namespace with its own page <stem><extension> *)
 NsSet(sh) == UNION {{SubSeq(t.ns, 1, k) : k \in 1..Len(t.ns)} : t \in TypesOf(sh)}
-PagesOf(sh) == {Append(n, P!N_index_html) : n \in NsSet(sh)}
-               \cup {Append(t.ns, t.name \o VerSfx(t) \o DOTHTML) : t \in TypesOf(sh)}
+NsPage(sh, n) == Append(n, IndexPage(sh.cfg))
+PagesOf(sh) == {NsPage(sh, n) : n \in NsSet(sh)}
+               \cup {Append(t.ns, t.name \o VerSfx(t) \o ExtOf(sh.cfg)) : t \in TypesOf(sh)}
 (* ids that can be link targets: on the page of namespace n, the tag id of every type and namespace below n     *)
 NT(sh) == {p \in NsSet(sh) \X Listed(sh) : IsPrefix(p[1], p[2].ns)}       \* <<namespace page, type listed on it>>
 NM(sh) == {p \in NsSet(sh) \X NsSet(sh) : IsPrefix(p[1], p[2])}            \* <<namespace page, namespace listed on it>>
-IdsOf(sh) == {<<Append(p[1], P!N_index_html), TagId(p[2], <<>>)>> : p \in NT(sh)}
-             \cup {<<Append(p[1], P!N_index_html), Join(p[2], USC, 1)>> : p \in NM(sh)}
+IdsOf(sh) == {<<NsPage(sh, p[1]), TagId(p[2], <<>>)>> : p \in NT(sh)}
+             \cup {<<NsPage(sh, p[1]), Join(p[2], USC, 1)>> : p \in NM(sh)}
 
 (* the hyperlink for a reference to type t (sub = Request/Response for the halves of a service) on the page of n *)
 DOTC == 46
-Climb(n, t) == Rep(UPDIR, Len(n)) \o t.ns[1] \o SLHASH \o TagId(t, <<>>)
-Href(style, n, t, sub) ==
+Climb(n, t) == Rep(UPDIR, Len(n)) \o t.ns[1] \o SLHASH \o TagId(t, <<>>)                               \* directory url
+ClimbPage(c, n, t) == Rep(UPDIR, Len(n)) \o t.ns[1] \o <<SL>> \o IndexPage(c) \o <<35>> \o TagId(t, <<>>)    \* names the page
+Href(style, c, n, t, sub) ==
     IF style = "code" THEN UPDIR \o t.ns[1] \o SLHASH \o TagId(t, sub)
     ELSE IF style = "fixed" THEN Climb(n, t)
+    ELSE IF style = "page" THEN ClimbPage(c, n, t)
     \* a type listed on the page itself is linked by its bare anchor: decided on name components ...
     ELSE IF style = "samepage" THEN (IF IsPrefix(n, t.ns) THEN <<35>> \o TagId(t, <<>>) ELSE Climb(n, t))
     \* ... or (wrongly) on the dotted names as strings: zqra.zqs is a string prefix of zqra.zqsx.T and of zqra.zqsZqt1
@@ -272,14 +309,9 @@ RefsIn(sh, t) ==
 
 LinksOf(style, sh) ==
     UNION {
-      {[from |-> Append(p[1], P!N_index_html), href |-> Href(style, p[1], r[1], r[2]), refs |-> {r[1].i}, pg |-> 0, inspan |-> FALSE] : r \in RefsIn(sh, p[2])}
-      \cup {[from |-> Append(p[1], P!N_index_html), href |-> <<35>> \o TagId(p[2], <<>>), refs |-> {p[2].i}, pg |-> 0, inspan |-> FALSE]}   \* side bar
+      {[from |-> NsPage(sh, p[1]), href |-> Href(style, sh.cfg, p[1], r[1], r[2]), refs |-> {r[1].i}, pg |-> 0, inspan |-> FALSE] : r \in RefsIn(sh, p[2])}
+      \cup {[from |-> NsPage(sh, p[1]), href |-> <<35>> \o TagId(p[2], <<>>), refs |-> {p[2].i}, pg |-> 0, inspan |-> FALSE]}   \* side bar
       : p \in NT(sh) }
-
-Broken(style, sh) ==
-    LET pages == PagesOf(sh)  ids == IdsOf(sh)
-    IN {[from |-> lk.from, href |-> lk.href, why |-> P!LinkVerdict(lk, pages, ids)] : lk \in LinksOf(style, sh)}
-       \ {[from |-> lk.from, href |-> lk.href, why |-> "ok"] : lk \in LinksOf(style, sh)}
 
 (* ============================================ the state machine ========================================= *)
 Stims == (IF Part \in {"text", "both"} THEN TextStims ELSE {}) \cup (IF Part \in {"links", "both"} THEN LinkStims ELSE {})
@@ -327,6 +359,7 @@ LexShape      == (phase = "judge" /\ EscMode = "markupsafe" /\ stim.ctx = "pre")
 ASSUME PrintT(ToJson([kind |-> "vocab", void |-> P!VoidTags, raw |-> P!RawTags]))
 
 (* ---- case emission (spec -> code): the stimulus, what P demands, and what each I-variant predicts ---- *)
+(* resolved_<style> = every hyperlink of that link style with what Resolve makes of it; broken_<style> = those P rejects      *)
 Emit == phase = "done" =>
     IF stim.kind = "text"
     THEN (stim.ctx = "pre" =>
@@ -334,13 +367,15 @@ Emit == phase = "done" =>
                          escaped |-> EscAll(Flat(stim.pl, 1), 1),
                          pred_none |-> Predict("none", "pre", Flat(stim.pl, 1)).clauses,
                          pred_esc  |-> Predict("markupsafe", "pre", Flat(stim.pl, 1)).clauses])))
-    ELSE PrintT(ToJson([kind |-> "links", src |-> stim.src, dst |-> stim.dst, how |-> stim.how, skind |-> stim.skind,
+    ELSE LET pages == PagesOf(stim)
+             ids   == IdsOf(stim)
+             Res(style) == {[from |-> lk.from, href |-> lk.href] @@ P!Resolve(lk.from, lk.href, pages) : lk \in LinksOf(style, stim)}
+             Brk(style) == {[from |-> lk.from, href |-> lk.href, why |-> P!LinkVerdict(lk, pages, ids)] :
+                               lk \in {lk \in LinksOf(style, stim) : P!LinkVerdict(lk, pages, ids) # "ok"}}
+         IN PrintT(ToJson([kind |-> "links", src |-> stim.src, dst |-> stim.dst, how |-> stim.how, skind |-> stim.skind,
                         dkind |-> stim.dkind, chain |-> stim.chain, names |-> <<TN1, TN2, TN3>>, versions |-> Versions, used |-> {t.i : t \in Used(stim)},
-                        pages |-> PagesOf(stim),
-                        links_code |-> {[from |-> lk.from, href |-> lk.href] : lk \in LinksOf("code", stim)},
-                        links_fixed |-> {[from |-> lk.from, href |-> lk.href] : lk \in LinksOf("fixed", stim)},
-                        resolved_code |-> {[from |-> lk.from, href |-> lk.href] @@ P!Resolve(lk.from, lk.href, PagesOf(stim)) : lk \in LinksOf("code", stim)},
-                        resolved_fixed |-> {[from |-> lk.from, href |-> lk.href] @@ P!Resolve(lk.from, lk.href, PagesOf(stim)) : lk \in LinksOf("fixed", stim)},
-                        broken_code |-> Broken("code", stim),
-                        broken_fixed |-> Broken("fixed", stim)]))
+                        cfg |-> stim.cfg, stem |-> StemOf(stim.cfg), ext |-> ExtOf(stim.cfg), index_page |-> IndexPage(stim.cfg),
+                        pages |-> pages,
+                        resolved_code |-> Res("code"), resolved_fixed |-> Res("fixed"), resolved_page |-> Res("page"),
+                        broken_code |-> Brk("code"), broken_fixed |-> Brk("fixed"), broken_page |-> Brk("page")]))
 =============================================================================
